@@ -19,6 +19,9 @@ CHECKS = {
  "C02": (True, "model_checking", "stateless model checking of the real code: histories of 2-3 tagged RPCs (and 2-3 concurrent callers) on one connection, deviation bound 1 (2 for soft-cancel histories), tag/echo/error-identity oracle",
          "Every history of 2 (thorough: 3) RPCs where the earlier ones end by normal completion, client Close, context cancel at every point (hard and soft), handler error or early handler return, followed by a victim RPC, plus 2-3 goroutines calling Invoke concurrently, is executed under every schedule within the deviation bound. Oracle: every payload received by RPC r on either side carries r's tag and verifies its checksum; handler errors seen by r are r's; a nil unary result is the echo of its own request; an RPC not ended by its caller whose handler is well-behaved succeeds unless the connection reports closed by final quiescence.",
          "Deviation bound 1-2; <=3 RPCs; model transport.", "4/C02"),
+ "C04": (True, "model_checking", "stateless model checking of the real code: ordered subsets (<=2 quick, <=3 thorough) of in-flight operations on one RPC over a stalled or flowing model transport, cancel after quiescence or by a racing canceller thread, deviation bound 1 (2), both cancel modes; five-clause oracle",
+         "For every ordered subset of {send, second send, recv, close, half-close, unary invoke, next NewStream} started on separate goroutines on one RPC, over a stalled client transport or a flowing one with a silent/receiving/flooding/echoing handler, the context is cancelled either after quiescence (so 'in flight when the cancel happens' is a happens-before fact) or by a canceller thread placed at every point by the deviation bound. Oracle: (1) no call stays blocked; (2) calls parked at the cancel with a silent peer fail, receives with exactly ctx.Err() and, in the default mode, sends too (relaxed to 'fails' when a local Close/half-close races for being the termination cause); (3) later send/receive fail; (4) the connection reports closed or serves a probe; (5) the peer handler's context ends once the cancellation has been read. Four genuine deviations of the pinned tree are listed as known findings (F1, F2, F11, F12).",
+         "Deviation bound 1-2; model transport; clauses (4),(5) presuppose that the peer's reader is not parked on a message the handler never receives (single-slot lending by design).", "4/C04"),
 }
 ALL = ["C%02d" % i for i in range(1, 20)]
 NOT_BUILT_REASON = "check not built yet in this round (planned: see DESIGN.md section 4); not claimed until it exists"
